@@ -386,6 +386,28 @@ impl Engine for C12 {
                             out.push(Violation::new("T0", "nondeterministic-output", "dir.insertion-order", "two writes of one content give different trees"));
                         }
                     }
+                    // third write: one of the files sits on a device without room (a symbolic link to /dev/full where
+                    // the file will be created): a real ENOSPC from the kernel on the only write of that file. The
+                    // directory writer must report it (missed seeded change C12-5: a buffered, never flushed file writer)
+                    if !per_file.is_empty() && std::path::Path::new("/dev/full").exists() {
+                        let victim = &per_file[(dp.create_order as usize) % per_file.len()].0;
+                        let w3 = d.join("w3");
+                        let link = w3.join(format!("{victim}.mapping"));
+                        if let Some(parent) = link.parent() {
+                            std::fs::create_dir_all(parent).expect("simdir");
+                        }
+                        if std::os::unix::fs::symlink("/dev/full", &link).is_ok() {
+                            st.fired(&["dir_enospc_on_one_file"]);
+                            st.tier("T2");
+                            match no_panic(|| quill::enigma_dir::write(&qa, &w3)) {
+                                Err(pm) => out.push(Violation::new("T2", "panic", format!("dir-write:{}", panic_path(&pm)), pm)),
+                                Ok(Err(_)) => st.probe("dir_write_err_on_full_device"),
+                                Ok(Ok(())) => out.push(Violation::new("T2", "writer-ok-with-incomplete-sink", "dir-write.full-device", format!("Ok although {victim}.mapping sits on a device that accepted no byte"))),
+                            }
+                            // nothing may ever read through the link (it yields zeros without end)
+                            let _ = std::fs::remove_file(&link);
+                        }
+                    }
                     // read back what was written
                     match no_panic(|| read_dir_real(&w1, m)) {
                         Err(pm) => out.push(Violation::new("T0", "panic", format!("dir-read:{}", panic_path(&pm)), pm)),
@@ -587,6 +609,6 @@ impl Engine for C12 {
         json!({"real": ["quill::enigma_file::{write_all, write_one, read_into, read_file_into}", "quill::enigma_dir::{write, read}", "walkdir", "std::fs"], "stub": ["byte source/sink (SimReader/SimWriter)", "directory content, creation order, crash point and damage (SimDir on tmpfs)"], "reference": ["refmap::{read_enigma_into, write_enigma_files, enigma_roots}"]})
     }
     fn expected_probes(&self) -> Vec<&'static str> {
-        vec!["dir_rewrite_over_longer_files", "orphan_inner_class", "nesting_depth_2plus", "dir_runs", "dir_creation_order_drawn", "dir_read_err_under_fault", "dir_read_ok_on_damaged_tree_agrees", "healed_and_reread", "write_err_under_fault", "read_err_under_fault", "io.eintr"]
+        vec!["dir_rewrite_over_longer_files", "orphan_inner_class", "nesting_depth_2plus", "dir_runs", "dir_creation_order_drawn", "dir_write_err_on_full_device", "dir_read_err_under_fault", "dir_read_ok_on_damaged_tree_agrees", "healed_and_reread", "write_err_under_fault", "read_err_under_fault", "io.eintr"]
     }
 }
